@@ -264,7 +264,7 @@ fn buf_copy_from_exact() {
 // @ob props=C11 tier=quick kind=B cfg=core-std timeout=900
 // @fn Inner::copy_from
 // @bound dims <= 3x3
-// @allow_panic copy_from|assert_failed
+// @allow_panic Inner::<.*>::copy_from|assert_failed
 // @clause copy_from rejects a source whose dimensions differ from the destination's
 #[cfg(not(verif_skip_buf_copy_from_rejects_mismatch))]
 #[kani::proof]
@@ -331,7 +331,7 @@ fn buf_nested_slice_aliasing() {
 // @ob props=C11 tier=quick kind=B cfg=core-std timeout=900
 // @fn Inner::slice ; Inner::resolve_bounds
 // @bound root buffer 4x3, all u32 rectangle corners
-// @allow_panic resolve_bounds
+// @allow_panic Inner::<.*>::resolve_bounds
 // @clause slicing rejects every rectangle that is not inside the view (l <= r <= w and t <= b <= h), so no slice can reach outside its parent
 #[cfg(not(verif_skip_buf_slice_rejects_outside))]
 #[kani::proof]
@@ -458,7 +458,7 @@ fn buf_to_index_checked_small() {
 // @ob props=C11 tier=quick kind=B cfg=core-std timeout=600
 // @fn Inner::resolve_bounds
 // @bound dims <= 3x3, stride <= 4, all u32 rectangle corners and absent corners (small-domain twin of verus_buf_resolve_bounds)
-// @allow_panic resolve_bounds
+// @allow_panic Inner::<.*>::resolve_bounds
 // @clause resolve_bounds rejects unless l<=r<=w and t<=b<=h; otherwise dims' = (r-l, b-t), range start = t*stride+l, length (b-t-1)*stride+(r-l) (or r-l when empty in y), inside the parent's extent
 #[cfg(not(verif_skip_buf_resolve_bounds_small))]
 #[kani::proof]
